@@ -87,6 +87,7 @@ class CallOracle(NdContract):
             u = st.env.get("redY_unique")
             if isinstance(u, Abstract):
                 eng.oblige(st, "constant_classifier_iff_a_single_relabelled_value", (u.count == 1) == BoolVal(recv.kind == "constant"), "reduction", node)
+                eng.oblige(st, "single_value_shortcut_looks_at_the_labels_the_learner_is_trained_on", BoolVal(u.of is labels), "wiring", node)
             return None
         return super().on_call(eng, st, node, name, recv, args, kwargs)
 
